@@ -1,4 +1,5 @@
 import GrinVerif.Model.ChainInputs
+import GrinVerif.Model.ChainNrdDup
 import GrinVerif.Lemmas.ChainMoreReject
 /-! Inputs in features-and-commit form (`Model/ChainInputs.lean`): an input is accepted iff it names
 an unspent output by its full identifier. -/
@@ -50,5 +51,29 @@ theorem refused_of_featMismatch (p : Params) (n : Node) (outs : List OutDef) (b 
   apply refused_of_state_fault
   intro par sPar _ _ hn
   exact hasTag_sums_of_mismatch outs b inf h ((stateChecks_none_iff p sPar _).mp hn).2.2.2.1
+
+/-- a block with two NRD kernels sharing an excess is refused by every node in every state — whatever
+the relative heights, whether or not the excess occurred before, wherever the two kernels sit —
+with head, stored blocks and reported unspent set unchanged -/
+theorem refused_of_nrdDup (p : Params) (n : Node) (b : Blk) (h : nrdDupInBody b = true) :
+    Refused p n b.withNrdDupCheck := by
+  apply refused_of_body_fault
+  intro hv
+  have ht := ((validateBody_none_iff p n.outs _ _).mp hv).1
+  unfold Blk.withNrdDupCheck at ht
+  rw [if_pos h] at ht
+  simp [hasTag] at ht
+
+/-- the membership form: two positions of the kernel list hold NRD kernels with the same excess -/
+theorem nrdDupInBody_of_two (b : Blk) (pre mid post : List Ker) (f1 r1 f2 r2 : Nat) (ex : String)
+    (hk : b.kers = pre ++ Ker.nrd f1 r1 ex :: mid ++ Ker.nrd f2 r2 ex :: post) :
+    nrdDupInBody b = true := by
+  unfold nrdDupInBody nrdExcesses
+  rw [hk]
+  simp only [List.filterMap_append, List.filterMap_cons, Bool.not_eq_eq_eq_not, Bool.not_true,
+    decide_eq_false_iff_not]
+  intro hnd
+  rw [List.nodup_append] at hnd
+  exact hnd.2.2 ex (by simp) ex (by simp) rfl
 
 end GV.Chain
